@@ -402,6 +402,13 @@ func init() {
 						e2.Exec(c10Prefix("/B", o))
 					}
 					e2.CloseAll()
+					if h%4 < 2 {
+						// the current directory of the base is in a sibling whose path merely starts with the base path: for the
+						// wrapper that is outside, relative patterns and paths are relative to the root of the base directory
+						_ = b2.MkdirAll("/B2/w/a", 0o755)
+						_ = b2.WriteFile("/B2/w/zz-only-in-sibling", []byte("x"), 0o644)
+						_ = b2.Chdir("/B2")
+					}
 					if bp, err := basepathfs.NewWithErr(b2, "/B"); err == nil && okb {
 						c14Compare(c, l, "BasePathFS(MemFS,/B)", bp, fsType, h, true)
 					}
